@@ -9,6 +9,16 @@ use std::collections::BTreeMap;
 use std::path::PathBuf;
 use std::time::Instant;
 
+thread_local! {
+    static CORPUS: std::cell::RefCell<Option<std::sync::Arc<Vec<Vec<u8>>>>> = const { std::cell::RefCell::new(None) };
+}
+fn hex(b: &[u8]) -> String {
+    b.iter().map(|x| format!("{:02x}", x)).collect()
+}
+fn unhex(s: &str) -> Vec<u8> {
+    (0..s.len() / 2).filter_map(|i| u8::from_str_radix(&s[2 * i..2 * i + 2], 16).ok()).collect()
+}
+
 fn main() {
     let args: Vec<String> = std::env::args().collect();
     if args.len() < 3 {
@@ -25,8 +35,26 @@ fn main() {
     let mut seed: u64 = std::env::var("VERIF_SEED").ok().and_then(|s| s.trim().parse::<i64>().ok()).map(|x| x as u64).unwrap_or(1);
     let mut replay = None;
     if args.len() >= 5 && args[3] == "--replay" {
-        let s = std::fs::read_to_string(&args[4]).expect("read replay file");
-        let v: Value = serde_json::from_str(&s).expect("parse replay file");
+        let raw = std::fs::read(&args[4]).expect("read replay file");
+        let parsed: Option<Value> = std::str::from_utf8(&raw).ok().and_then(|s| serde_json::from_str::<Value>(s).ok()).filter(|v| v.get("event_index").is_some() || v.get("fuzz_input_hex").is_some());
+        // an input of the coverage-guided driver (a libFuzzer artifact, or a corpus entry quoted in a replay document)
+        let fuzz_bytes: Option<Vec<u8>> = match &parsed {
+            None => Some(raw.clone()),
+            Some(v) => v.get("fuzz_input_hex").and_then(|h| h.as_str()).map(unhex),
+        };
+        if let Some(bytes) = fuzz_bytes {
+            println!("REPLAY of {} coverage-guided input ({} bytes)", prop, bytes.len());
+            let out = hfverif::fuzz::one_input(&prop, &bytes);
+            for (sig, det) in &out.violations {
+                println!("REPLAY: VIOLATED {} : {}", sig, det);
+            }
+            for k in &out.known {
+                println!("REPLAY: matches known finding {}", k);
+            }
+            println!("REPLAY verdict: {} ({} events judged)", if !out.violations.is_empty() { "VIOLATION reproduced" } else if !out.known.is_empty() { "known finding reproduced" } else { "no violation on this tree" }, out.evals);
+            std::process::exit(if out.violations.is_empty() { 0 } else { 1 });
+        }
+        let v: Value = parsed.unwrap();
         seed = v["seed"].as_u64().unwrap();
         tier = if v["tier"] == "thorough" { Tier::Thorough } else { Tier::Quick };
         replay = Some((v["shard"].as_u64().unwrap() as u32, v["event_index"].as_u64().unwrap()));
@@ -98,7 +126,7 @@ fn main() {
         .and_then(|s| s.parse::<u64>().ok())
         .unwrap_or(if tier == Tier::Thorough { meta.thorough_scale } else { 1 });
     let flavour = flavour_arg.unwrap_or_else(|| std::env::var("VERIF_FLAVOUR").unwrap_or_else(|_| "checked".into()));
-    let cfg = Cfg { prop: prop.clone(), tier, seed, scale, verif_dir: verif_dir.clone(), repo_dir: repo_dir.clone(), replay, flavour: flavour.clone(), budget_div };
+    let cfg = Cfg { prop: prop.clone(), tier, seed, scale, verif_dir: verif_dir.clone(), repo_dir: repo_dir.clone(), replay, flavour: flavour.clone(), budget_div, fuzz: false };
     let (known_open, known_doc) = load_known_open(&verif_dir);
     install_hook();
     let t0 = Instant::now();
@@ -251,6 +279,69 @@ fn main() {
         }
         cold_json = json!({"processes": cold_ok, "evaluations": cold_evals, "anchors": "props/cold.rs EPOCH_ANCHORS x dur_anchor"});
     }
+    // corpus of the coverage-guided driver (committed, packed): every entry is one more workload, judged by the same monitors
+    let mut corpus_json = json!({"entries": 0});
+    if replay.is_none() && one_shard.is_none() && !no_cold {
+        let entries = hfverif::fuzz::read_packed(&verif_dir.join("corpus").join(format!("{}.bin", prop)));
+        if !entries.is_empty() {
+            let entries = std::sync::Arc::new(entries);
+            let mut hs = vec![];
+            for t in 0..NSHARDS as usize {
+                let entries = entries.clone();
+                let prop = prop.clone();
+                hs.push(std::thread::Builder::new().stack_size(64 << 20).spawn(move || {
+                    let mut evals = 0u64;
+                    let mut viol: Vec<(String, String, usize)> = vec![];
+                    let mut known: BTreeMap<String, u64> = BTreeMap::new();
+                    for (i, e) in entries.iter().enumerate() {
+                        if i % NSHARDS as usize != t {
+                            continue;
+                        }
+                        let out = hfverif::fuzz::one_input(&prop, e);
+                        evals += out.evals;
+                        for (sig, det) in out.violations {
+                            viol.push((sig, det, i));
+                        }
+                        for k in out.known {
+                            *known.entry(k).or_insert(0) += 1;
+                        }
+                    }
+                    (evals, viol, known, PANICS_CAUGHT.with(|c| c.get()))
+                }).unwrap());
+            }
+            let mut cev = 0u64;
+            let mut rep = Rep::new(200, None, known_open.clone());
+            for h in hs {
+                match h.join() {
+                    Ok((ev, viol, known, p)) => {
+                        cev += ev;
+                        panics += p;
+                        for (sig, det, i) in viol {
+                            let sig = format!("corpus/{}", sig);
+                            *rep.viol_count.entry(sig.clone()).or_insert(0) += 1;
+                            let v = rep.viol.entry(sig.clone()).or_default();
+                            if v.len() < 3 {
+                                v.push(Violation { sig, shard: 200, idx: i as u64, detail: format!("[corpus entry {}] {}", i, det) });
+                            }
+                        }
+                        for (k, n) in known {
+                            let e = rep.known.entry(k).or_insert((0, "corpus entry".to_string()));
+                            e.0 += n;
+                        }
+                    }
+                    Err(_) => {
+                        println!("INCONCLUSIVE property={} the corpus replay panicked outside a guarded call", prop);
+                        std::process::exit(2);
+                    }
+                }
+            }
+            rep.evals = cev;
+            rep.classes.insert("corpus-entry".into(), entries.len() as u64);
+            total.merge(rep);
+            corpus_json = json!({"entries": entries.len(), "evaluations": cev, "source": format!("corpus/{}.bin (inputs kept by libFuzzer for new coverage of hifitime + monitors; tools/fuzz_corpus.sh)", prop)});
+            CORPUS.with(|c| *c.borrow_mut() = Some(entries));
+        }
+    }
     let wall = t0.elapsed().as_secs_f64();
 
     if replay.is_some() {
@@ -276,9 +367,10 @@ fn main() {
         let v = &vs[0];
         let fname = format!("{}-{}-s{}-{}-{:08x}.json", prop, tier.name(), seed, flavour, hstr(sig) as u32);
         let path = replay_dir.join(&fname);
+        let fuzz_hex: Option<String> = if v.shard == 200 { CORPUS.with(|c| c.borrow().as_ref().and_then(|e| e.get(v.idx as usize).map(|b| hex(b)))) } else { None };
         let doc = json!({
             "property": prop, "signature": sig, "seed": seed, "tier": tier.name(), "scale": scale, "flavour": flavour,
-            "shard": v.shard, "event_index": v.idx, "detail": v.detail, "count_in_run": cnt,
+            "shard": v.shard, "event_index": v.idx, "detail": v.detail, "count_in_run": cnt, "fuzz_input_hex": fuzz_hex,
             "more_examples": vs.iter().skip(1).map(|x| x.detail.clone()).collect::<Vec<_>>(),
             "repo_rev": repo_rev, "replay_cmd": format!("./check {} --replay {}", prop, path.display()),
         });
@@ -341,6 +433,7 @@ fn main() {
             "repo_rev": repo_rev,
             "shards": NSHARDS,
             "cold_start_probes": cold_json,
+            "coverage_guided_corpus": corpus_json,
         },
         "assumptions": meta.assumptions,
         "wall_s": wall,
